@@ -5,6 +5,7 @@ import z3
 from .core import (Val, NONE, vint, vreal, vbool, vtuple, to_real, to_int, truth, State, Unsupported,
                    ContractError, fresh_name, sort_of, elem_tag, is_ref_kind, I, R, B)
 from . import spec as S
+from .kinds import parse_kind
 
 _clause_cache = {}
 
@@ -573,6 +574,8 @@ def apply_contract(eng, c, mod, fdef, args, kwargs, st, node):
     result = fresh_of_kind(eng, st, c.returns, 'res_' + short) if c.returns is not None else NONE
     env2 = dict(env)
     env2['result'] = result
+    for gname, gk in (c.ghost.get('return_kinds') or {}).items():
+        env2[gname] = fresh_of_kind(eng, st, parse_kind(gk), 'ghost_' + gname)
     for label, clause in c.labelled(c.ensures, 'post'):
         t = eval_bool(eng, clause, env2, st, old=(env, old_heap))
         st.assume(t)
